@@ -247,7 +247,12 @@ bool IncSolver::solve() {
 #endif
     satisfy();
     double lastcost = DBL_MAX, cost = bs->cost();
-    while(fabs(lastcost-cost)>0.0001) {
+    // Also keep going while the last pass still split a block: a split
+    // that is merged back at the same positions leaves the cost unchanged
+    // although the next pass can improve it.  The cap guards against
+    // degenerate cycling (cf. Solver::refine).
+    unsigned maxtries = 100;
+    while((fabs(lastcost-cost)>0.0001 || splitCnt>0) && maxtries-->0) {
         satisfy();
         lastcost=cost;
         cost = bs->cost();
